@@ -52,11 +52,11 @@ fn int_range(k: Kind) -> (i128, i128) {
         Kind::I8 => (i8::MIN as i128, i8::MAX as i128),
         Kind::I16 => (i16::MIN as i128, i16::MAX as i128),
         Kind::I32 => (i32::MIN as i128, i32::MAX as i128),
-        Kind::I64 => (i64::MIN as i128, i64::MAX as i128),
+        Kind::I64 | Kind::I128 => (i64::MIN as i128, i64::MAX as i128),
         Kind::U8 => (0, u8::MAX as i128),
         Kind::U16 => (0, u16::MAX as i128),
         Kind::U32 => (0, u32::MAX as i128),
-        Kind::U64 => (0, u64::MAX as i128),
+        Kind::U64 | Kind::U128 => (0, u64::MAX as i128),
         Kind::Bool => (0, 1),
         _ => (0, 0),
     }
@@ -64,7 +64,7 @@ fn int_range(k: Kind) -> (i128, i128) {
 
 fn int_bits(k: Kind, v: i128) -> u64 {
     match k {
-        Kind::I8 | Kind::I16 | Kind::I32 | Kind::I64 => v as i64 as u64,
+        Kind::I8 | Kind::I16 | Kind::I32 | Kind::I64 | Kind::I128 => v as i64 as u64,
         _ => v as u64,
     }
 }
@@ -174,7 +174,8 @@ pub fn gen_coincident(rng: &mut Rng, e: &TypeEntry) -> Vec<u64> {
         }
         _ => {
             let np = 1 + rng.usize_below(3);
-            let pal: Vec<i64> = (0..np).map(|_| [0i64, 1, -1, 2, 1, 0, 3, -2, 7, 100][rng.usize_below(10)]).collect();
+            // i64::MIN stands for negative zero (plain zero for integer kinds)
+            let pal: Vec<i64> = (0..np).map(|_| [0i64, 1, -1, 2, 1, 0, 3, -2, 7, 100, i64::MIN, 0][rng.usize_below(12)]).collect();
             let exotic = rng.chance(1, 3);
             let ex_style = [LeafStyle::Specials, LeafStyle::RandomBits][rng.usize_below(2)];
             // one exotic value per kind, shared by every leaf that picks it
@@ -185,7 +186,15 @@ pub fn gen_coincident(rng: &mut Rng, e: &TypeEntry) -> Vec<u64> {
                 .map(|(i, (k, c))| {
                     let pick = rng.usize_below(np + exotic as usize);
                     if pick < np {
-                        small_value(*k, pal[pick])
+                        if pal[pick] == i64::MIN {
+                            match k {
+                                Kind::F32 => 0x8000_0000,
+                                Kind::F64 => 0x8000_0000_0000_0000,
+                                _ => 0,
+                            }
+                        } else {
+                            small_value(*k, pal[pick])
+                        }
                     } else if let Some((_, b)) = ex.iter().find(|(kk, _)| *kk == (*k, *c)) {
                         *b
                     } else {
@@ -212,6 +221,7 @@ fn gen_medium(rng: &mut Rng) -> Medium {
         human_readable: rng.chance(1, 2),
         size_hint: [SizeHint::None, SizeHint::Exact, SizeHint::Lower][rng.usize_below(3)],
         filter_fields: rng.chance(1, 6),
+        check_names: rng.chance(1, 5),
     }
 }
 
@@ -244,6 +254,13 @@ pub fn near_miss_keys(field: &str) -> Vec<String> {
 }
 
 fn pick_unknown_key(rng: &mut Rng, keys: &[String]) -> String {
+    let dict = harvested();
+    if !dict.is_empty() && rng.chance(1, 6) {
+        let k = &dict[rng.usize_below(dict.len())];
+        if !keys.iter().any(|x| x == k) {
+            return k.clone();
+        }
+    }
     if !keys.is_empty() && rng.chance(1, 2) {
         let f = &keys[rng.usize_below(keys.len())];
         let nm = near_miss_keys(f);
@@ -403,6 +420,7 @@ pub fn sweep_plans(reg: &[TypeEntry]) -> Vec<Plan> {
                     human_readable: fi != 1,
                     size_hint: [SizeHint::None, SizeHint::Exact, SizeHint::Lower][fi],
                     filter_fields: newtype == NewtypeMode::Wrapped && fi == 0,
+                    check_names: newtype == NewtypeMode::Wrapped,
                 };
                 let base = Plan { ty: e.name.clone(), gen: gen.clone(), patch: None, medium, wfaults: vec![], rfaults: vec![], retry: false, in_place: false };
                 let p = &e.probes[probe_index(&medium)];
@@ -482,6 +500,33 @@ pub fn sweep_plans(reg: &[TypeEntry]) -> Vec<Plan> {
                                     let mut q = base.clone();
                                     q.rfaults = faults.clone();
                                     q.rfaults.push(RFault::Unknown { path: vec![], pos, key, val: UVal::CopyOf(fi as u8) });
+                                    out.push(q);
+                                }
+                            }
+                        }
+                    }
+                }
+                // every string literal of the tree under test as an extra key, in front and at the
+                // end, carrying each field's own payload, a number and a string
+                if framing == Framing::KeyedSelfDelim && (key_form == KeyForm::Str || key_form == KeyForm::Bytes) {
+                    let keys = &p.records[0].1;
+                    for lit in harvested() {
+                        if keys.iter().any(|k| k == lit) {
+                            continue;
+                        }
+                        for pos in [0u8, n as u8] {
+                            let mut vals: Vec<UVal> = (0..n as u8).map(UVal::CopyOf).collect();
+                            vals.push(UVal::Num);
+                            vals.push(UVal::Str);
+                            for val in vals {
+                                let mut q = base.clone();
+                                q.rfaults.push(RFault::Unknown { path: vec![], pos, key: lit.clone(), val });
+                                out.push(q);
+                                // and standing in for the field whose payload it carries
+                                if let UVal::CopyOf(i) = val {
+                                    let mut q = base.clone();
+                                    q.rfaults.push(RFault::Drop { path: vec![], idx: vec![i] });
+                                    q.rfaults.push(RFault::Unknown { path: vec![], pos, key: lit.clone(), val });
                                     out.push(q);
                                 }
                             }
@@ -612,6 +657,7 @@ pub fn shrink_candidates(p: &Plan, reg: &[TypeEntry]) -> Vec<Plan> {
     knob!(human_readable);
     knob!(size_hint);
     knob!(filter_fields);
+    knob!(check_names);
     if p.medium.framing == Framing::KeyedLenPrefixed {
         let mut q = p.clone();
         q.medium.framing = Framing::KeyedSelfDelim;
@@ -956,4 +1002,97 @@ pub fn shrink_j(p: &JPlan, assert_id: &str, reg: &[TypeEntry]) -> (JPlan, u32) {
         break;
     }
     (cur, steps)
+}
+
+// ---- white-box dictionary -----------------------------------------------------------------------
+
+/// String literals found in the sources of the tree under test (comments skipped). Like a
+/// fuzzer's dictionary: a key that the code compares against verbatim — an alias, an allow-listed
+/// annotation such as "$schema" — cannot be guessed by mutation of the real field names, but it
+/// has to be spelled out somewhere in the code. Deterministic: files in name order, literals
+/// sorted and de-duplicated.
+pub fn harvest_literals() -> Vec<String> {
+    let dir = std::env::var("VERIF_REPO_SRC").unwrap_or_else(|_| "/repo/src".to_string());
+    let mut files: Vec<std::path::PathBuf> = match std::fs::read_dir(&dir) {
+        Ok(rd) => rd.filter_map(|e| e.ok()).map(|e| e.path()).filter(|p| p.extension().map(|x| x == "rs").unwrap_or(false)).collect(),
+        Err(_) => return Vec::new(),
+    };
+    files.sort();
+    let mut out: Vec<String> = Vec::new();
+    for f in files {
+        let text = match std::fs::read_to_string(&f) {
+            Ok(t) => t,
+            Err(_) => continue,
+        };
+        let b: Vec<char> = text.chars().collect();
+        let mut i = 0;
+        while i < b.len() {
+            let c = b[i];
+            if c == '/' && i + 1 < b.len() && b[i + 1] == '/' {
+                while i < b.len() && b[i] != '\n' {
+                    i += 1;
+                }
+                continue;
+            }
+            if c == '\'' {
+                // char literal or lifetime: skip a short char literal so that '"' does not open a string
+                if i + 2 < b.len() && b[i + 2] == '\'' {
+                    i += 3;
+                    continue;
+                }
+                if i + 3 < b.len() && b[i + 1] == '\\' && b[i + 3] == '\'' {
+                    i += 4;
+                    continue;
+                }
+            }
+            if c == '"' {
+                let mut s = String::new();
+                i += 1;
+                let mut ok = false;
+                while i < b.len() {
+                    let d = b[i];
+                    if d == '\\' && i + 1 < b.len() {
+                        let e = b[i + 1];
+                        match e {
+                            'n' => s.push('\n'),
+                            't' => s.push('\t'),
+                            'r' => s.push('\r'),
+                            '0' => s.push('\0'),
+                            '\\' => s.push('\\'),
+                            '"' => s.push('"'),
+                            '\'' => s.push('\''),
+                            _ => {
+                                s.push('\\');
+                                s.push(e);
+                            }
+                        }
+                        i += 2;
+                        continue;
+                    }
+                    if d == '"' {
+                        ok = true;
+                        i += 1;
+                        break;
+                    }
+                    s.push(d);
+                    i += 1;
+                }
+                if ok && !s.is_empty() && s.chars().count() <= 32 && !s.contains('\n') {
+                    out.push(s);
+                }
+                continue;
+            }
+            i += 1;
+        }
+    }
+    out.sort();
+    out.dedup();
+    out.truncate(2000);
+    out
+}
+
+static HARVEST: std::sync::OnceLock<Vec<String>> = std::sync::OnceLock::new();
+
+pub fn harvested() -> &'static [String] {
+    HARVEST.get_or_init(harvest_literals)
 }
